@@ -102,11 +102,11 @@ func c03(r *sim.R) *sim.Violation {
 			r.Probe("session_rejected")
 		}
 		wd.fs.Restart("r")
-		wd.emptyDayOK = ""
+		wd.EmptyDayOK = ""
 		if err != nil {
-			wd.emptyDayOK = fmt.Sprintf("%s/%d", s.iface, model.DayOf(s.dirTS))
+			wd.EmptyDayOK = fmt.Sprintf("%s/%d", s.iface, model.DayOf(s.dirTS))
 		}
-		if _, cl, det := wd.checkStore(want, nil, ""); cl != "" {
+		if _, cl, det := wd.CheckStore(want, nil, ""); cl != "" {
 			clause := "accepted-but-stored-altered"
 			if err != nil {
 				clause = "rejected-but-changed-the-day"
